@@ -191,7 +191,21 @@ type EventDecl struct {
 }
 
 // File is one parsed contract file.
+// Represents couples a ghost (model) field of an interface with the state of one implementing type:
+// "represents (*transport) Transport.$writable = this._writable.v != 0". The implementing type's methods are then verified
+// against the interface's model contracts with the ghost field read as that expression (refinement).
+type Represents struct {
+	Impl  string // implementing type as written, e.g. (*transport)
+	Iface string // interface type as written
+	Ghost string // ghost field name with $
+	Expr  Expr
+	Text  string
+	Pos   Pos
+	Pkg   string
+}
+
 type File struct {
+	Reps     []*Represents
 	Path     string
 	Pkg      string
 	Funcs    []*FuncSpec
